@@ -267,11 +267,20 @@ C05E2E(pr, e) ==
         !.path = PathOf([t \in 1..5 |-> IF t >= 4 THEN <<[form |-> "te", from |-> "TARGET", delay_us |-> 5000]>> ELSE <<[form |-> "te", from |-> R4(t), delay_us |-> 1000 * t]>>])]
 C05All(u) == { C05E2E(pr, e) : pr \in {<<"icmp", "", FALSE>>, <<"tcp", "syn", FALSE>>}, e \in {1, 3} }
              \cup { C11Req(pr, CHOOSE b \in WrapBases : b.name = "mid", ord, 1, 3) : pr \in Protos, ord \in Orders }
+\* C01 at request level: prefer_sack fell back to SYN (closed port); the SYN run checks quoted sources as strictly as a plain SYN run:
+\* a time-exceeded that quotes another flow (other source address / port) does not create a hop
+C01Req(pert) ==
+    [id |-> "C01/req/prefer_sack_fallback/" \o pert[1], label |-> "request/tcp/prefer_sack/fallback/" \o pert[1], kind |-> "run", sack_perm |-> TRUE, isn32 |-> <<4660, 1>>,
+     run |-> [Run("tcp", "prefer_sack", FALSE, 1, 5, 1, 0) EXCEPT !.listen_port = 0],
+     path |-> PathOf([t \in 1..5 |-> IF t >= 4 THEN <<[form |-> "synack", delay_us |-> 5000]>> ELSE IF t = 3 THEN <<>> ELSE <<[form |-> "te", from |-> R4(t), delay_us |-> 1000 * t]>>]),
+     inject |-> <<[at_us |-> 150000, for_ttl |-> 3, form |-> "te", from |-> "192.0.2.200", mods_d |-> pert[2], mods_s |-> pert[3], tag |-> pert[1]]>>]
+C01ReqAll(u) == { C01Req(p) : p \in { <<"q_src", [x \in {} |-> 0], [q_src |-> "10.77.0.2"]>>, <<"q_sport+1", [q_sport |-> 1], [x \in {} |-> ""]>>,
+                                         <<"q_dst", [x \in {} |-> 0], [q_dst |-> "198.51.100.10"]>>, <<"genuine", [x \in {} |-> 0], [x \in {} |-> ""]>> } }
 HistAll(u) == { C19Hist(n, w) : n \in {"dual46.test", "dual64.test"}, w \in BOOLEAN } \cup { C20Hist(m) : m \in {"prefer_sack", "sack"} }
               \cup { C16Hist(b) : b \in {1, 40, 300} } \cup { C17Conc(pr, l) : pr \in {<<"icmp", "", FALSE>>, <<"udp", "", FALSE>>}, l \in {0, 30000, 300000} }
 
 ---------------------------------------------------------------------------
-Cases == CASE Gen = "C05" -> C05All(0) [] Gen = "Hist" -> HistAll(0) [] Gen = "C15" -> C15All(0)
+Cases == CASE Gen = "C01" -> C01ReqAll(0) [] Gen = "C05" -> C05All(0) [] Gen = "Hist" -> HistAll(0) [] Gen = "C15" -> C15All(0)
            [] Gen = "C11" -> C11All(0)
            [] Gen = "C17" -> C17All(0)
            [] Gen = "C19" -> C19All(0)
